@@ -57,7 +57,7 @@ def run(tier):
                 log = json.load(open(os.path.join(logs, "log-%d.json" % e["h"])))
                 for nm in names:
                     hits[nm] = hits.get(nm, 0) + 1
-                    sig = "%s:%s" % (PID, nm)
+                    sig = "%s:%s:%s" % (PID, nm, e["desc"].split(" ")[0])
                     verdict.add(sig, "%s broken by '%s' (history %d entry %d)" % (nm, e["desc"], e["h"], e["i"]),
                                 {"kind": "fsm-log", "mode": "c07", "log": log[:e["i"]], "predicate": nm})
         n_new = verdict.finish()
